@@ -393,13 +393,13 @@ def run_check(modname: str, tier: str, replay_path: str | None = None) -> int:
 	write_evidence(mod, tier, seed, merged, wall, nviol, known_lines, replayed)
 	print(f"{prop} {tier} seed={seed}: evaluations={merged['evaluations']} distinct_nontrivial={len(merged['nontrivial'])} "
 		f"discarded={sum(merged['discards'].values())} buckets={len(merged['failures'])} wall={wall:.1f}s")
-	if len(merged['nontrivial']) < 2:
-		print('HARNESS-ERROR: fewer than 2 non-trivial cases were generated; the generator or budget is broken')
-		return EXIT_HARNESS
 	if violations:
 		for v in violations:
 			path = v.get('path') or write_replay(prop, v)
 			print(f"violation bucket {v['sig']}: {v['detail'][:600]}")
 			print(f'VIOLATION property={prop} replay={path}')
 		return EXIT_VIOLATION
+	if len(merged['nontrivial']) < 2:
+		print('HARNESS-ERROR: fewer than 2 non-trivial cases were generated; the generator or budget is broken')
+		return EXIT_HARNESS
 	return EXIT_OK
